@@ -521,7 +521,6 @@ def replay_zero_noise():
         gp.kernels, gp.default_noise = [K()], 0.03
         gp.exx_ref_dict, gp.ks_baseline_dict = {"A": -1.2}, {"A": 0.0}
         gp.rxn_ref_list, gp.rxn_noise_list = [], []
-        gp.xkernels, gp.ckernels = gp.kernels, []
         try:
             gp.add_reactions([(0, {"structs": ["A"], "counts": [1.0], "noise": 0.0}), (0, {"structs": ["A"], "counts": [1.0], "noise_factor": 0.0})])
         except Exception as e:
